@@ -6,6 +6,7 @@ import ast
 from .. import facts
 from ..codecs import Codecs
 from ..guards import Desc, Raises, Unknown, run_ctor
+from ..index import walk_no_nested
 from ..layout import Field, walk_terms
 from ..report import AnalysisError, head, norm
 
@@ -215,5 +216,29 @@ def run(prog, rep):
     else:
         t, d, r, w = te[0]
         rep.fail("event-values", "tdfEvents.py", "Event.__init__", guard_stmt(f, "values"), f"values={d} is refused with {r[1]}, not TypeError", construct="Event.__init__ guard :: exception type")
+    # the guards sit in the constructors: an attribute they validate is stored by the constructor only - code of the package that
+    # assigns it on an existing object (a decoder that builds an empty object and fills it in) creates objects no guard has seen
+    guarded = {("Event", "values")}
+    for modname, cname, params in ARRAY_PARAMS:
+        for p_ in params:
+            guarded.add((cname, p_))
+    names = {a for _, a in guarded}
+    for m_ in prog.modules.values():
+        for fn in [x for c_ in m_.classes.values() for x in c_.all_funcs()] + list(m_.functions.values()):
+            if fn.name == "__init__":
+                continue
+            for st in walk_no_nested(fn.node):
+                tgs = st.targets if isinstance(st, ast.Assign) else [st.target] if isinstance(st, (ast.AugAssign, ast.AnnAssign)) else []
+                for t in tgs:
+                    if isinstance(t, ast.Attribute) and t.attr in names and isinstance(t.value, ast.Name) and t.value.id not in ("self", "cls"):
+                        # which class is the object? a local built by a constructor call of a guarded class
+                        defs = [a for a in walk_no_nested(fn.node) if isinstance(a, ast.Assign) and len(a.targets) == 1 and isinstance(a.targets[0], ast.Name)
+                                and a.targets[0].id == t.value.id and isinstance(a.value, ast.Call) and isinstance(a.value.func, ast.Name)]
+                        k = defs[0].value.func.id if len(defs) == 1 else None
+                        if k is not None and (k, t.attr) in guarded:
+                            rep.fail("event-values" if k == "Event" else "shape-guard", m_.path.name, fn.qualname, st,
+                                     f"`{norm(head(st))[:60]}` stores `{t.attr}` on a {k} after it was constructed: the checks of {k}.__init__ never see that value "
+                                     "(a single event with several values, a mis-shaped array)", construct=f"{fn.qualname} assigns {k}.{t.attr} outside the constructor")
+    rep.ok("shape-guard", f"validated attributes ({len(guarded)}) are stored by their constructors only")
     rep.floor("guards", n_guards, 24)
     rep.not_decided += ["dtype acceptability (a (3,) array of strings)", "arguments the property does not list (BTSCameraData matrices; they surface as C02 assumptions)"]
